@@ -119,6 +119,9 @@ func wbLoadConf(t testing.TB, dir string, pathsYAML string) *conf.Conf {
 	return c
 }
 
+// wbReadTimeout is the manager's readTimeout (static sources use it to detect a dead upstream).
+var wbReadTimeout = 10 * time.Second
+
 func wbStart(t testing.TB, pathsYAML string) *wbEnv {
 	e := &wbEnv{t: t, dir: t.TempDir()}
 	e.auth = &wbAuth{deny: map[string]bool{}, env: e}
@@ -128,7 +131,7 @@ func wbStart(t testing.TB, pathsYAML string) *wbEnv {
 	e.pm = &pathManager{
 		logLevel:          conf.LogLevel(logger.Debug),
 		rtspAddress:       ":8554",
-		readTimeout:       conf.Duration(10 * time.Second),
+		readTimeout:       conf.Duration(wbReadTimeout),
 		writeTimeout:      conf.Duration(10 * time.Second),
 		writeQueueSize:    512,
 		udpMaxPayloadSize: 1472,
